@@ -2343,7 +2343,7 @@ impl<'store> FindTextSelectionsIter<'store> {
                     if self
                         .refset
                         .test(&self.operator, textselection, self.resource)
-                        && !self.refset.has_handle(textselection.handle().unwrap())
+                        && !self.is_reference(textselection)
                     //       ^------ do not include the item itself
                     {
                         if !self.buffer.is_empty() {
@@ -2369,7 +2369,7 @@ impl<'store> FindTextSelectionsIter<'store> {
                     if self
                         .refset
                         .test(&self.operator, textselection, self.resource)
-                        && !self.refset.has_handle(textselection.handle().unwrap())
+                        && !self.is_reference(textselection)
                     //       ^------ do not include the item itself
                     {
                         self.buffer.push_front(textselection.handle().unwrap())
@@ -2379,6 +2379,14 @@ impl<'store> FindTextSelectionsIter<'store> {
             }
             None //triggers normal looping behaviour
         }
+    }
+
+    /// Is this text selection one of the references? (by what it selects: a reference may be a copy
+    /// without a handle of a text selection the resource knows)
+    fn is_reference(&self, textselection: &TextSelection) -> bool {
+        self.refset.iter().any(|reference| {
+            reference.begin() == textselection.begin() && reference.end() == textselection.end()
+        })
     }
 
     fn next_iterator(&mut self) {
